@@ -174,6 +174,10 @@ def judge_order(rec):
             # ties allowed: the sequence of key tuples must be the model's
             a = [tuple(R.key([r[p]])[0] for p, _ in kp) for r in rows]
             b = [tuple(R.key([r[p]])[0] for p, _ in kp) for r in mrows]
+            if pg.meta.get("outer_right"):
+                # rows of a right/full join without a left partner have NULL left keys: no position is specified for them
+                a = [k for k in a if (0, 0) not in k]
+                b = [k for k in b if (0, 0) not in k]
             if a != b:
                 return "rows are right but the sort keys are not in the order in effect (ties aside)"
             if rows and len(set(a)) > 1 and not main_order_by(rec.get("sql", "")):
@@ -208,7 +212,7 @@ def run():
     targets = ("sql.sqlite", "sql.generic")
     weights = {"sort": 4.0, "take": 3.5, "select": 2.2, "derive": 1.6, "filter": 2.0, "join": 2.0, "aggregate": 0.4, "group_agg": 0.6,
                "group_take": 0.9, "group_win": 0.6, "win": 0.8, "distinct": 0.4, "append": 0.1}
-    g = P.Gen(rng, weights=weights, max_steps=8)
+    g = P.Gen(rng, weights=weights, max_steps=8, lets=0.3)
     cases = []
     # directed: sort followed by every kind, then a take; sort on a computed / later-dropped column
     for k in E.KINDS:
@@ -216,6 +220,29 @@ def run():
             pg = g.program(n_steps=3 + rng.randint(0, 2), force=["sort", k, "take"] if rng.random() < 0.6 else ["sort", k])
             inst = P.gen_instance(rng, max_rows=7, min_rows=4)
             cases.append((pg, [inst, permuted(rng, inst)]))
+    # any number of sub-queries: repeated sort|take blocks (each forces a split) followed by every kind
+    for k in E.KINDS:
+        for _ in range(ck.n(1, 4) * (3 if broken else 1)):
+            pg = g.program(n_steps=5 + rng.randint(0, 1), force=["sort", "take", "sort", "take", k])
+            inst = P.gen_instance(rng, max_rows=7, min_rows=5)
+            cases.append((pg, [inst, permuted(rng, inst)]))
+    # a join between the sort and the take (the left input's order must survive the join)
+    for _ in range(ck.n(24, 120) * (3 if broken else 1)):
+        pg = g.program(n_steps=4 + rng.randint(0, 2), force=["sort", "join", "take", rng.choice(["group_agg", "filter", "derive", "select", "aggregate"])])
+        inst = P.gen_instance(rng, max_rows=7, min_rows=5)
+        cases.append((pg, [inst, permuted(rng, inst)]))
+    # sort | join | take | select (unique names) | group: the take's own sort is the only carrier of the order
+    for _ in range(ck.n(30, 150) * (3 if broken else 1)):
+        pg = g.program(n_steps=5 + rng.randint(0, 1), force=["sort", "join", "take", "select", rng.choice(["group_agg", "aggregate", "distinct"])])
+        inst = P.gen_instance(rng, max_rows=7, min_rows=5)
+        cases.append((pg, [inst, permuted(rng, inst)]))
+    # a named prefix ending in a sort, then another sort | take | group: the CTE's sorting must not override the take's
+    for _ in range(ck.n(30, 150) * (3 if broken else 1)):
+        pg = g.program(n_steps=4 + rng.randint(0, 1), force=["sort", "sort", "take", rng.choice(["group_agg", "aggregate", "group_take", "filter"])])
+        if [x.kind for x in pg.steps[:2]] == ["sort", "sort"] and not any(x.kind in ("join", "append") for x in pg.steps):
+            pg.meta["let_at"] = 1
+        inst = P.gen_instance(rng, max_rows=7, min_rows=5)
+        cases.append((pg, [inst, permuted(rng, inst)]))
     for _ in range(ck.n(260, 4000) * (3 if broken else 1)):
         pg = g.program()
         inst = P.gen_instance(rng, max_rows=7, min_rows=3)
